@@ -1,13 +1,13 @@
 #!/bin/bash
 # tools/seeded_selftest.sh : every seeded defect under /verif/seeded must be reported by its property's quick check
-# (patch applied to /repo, check run, patch reverted; evidence files are restored afterwards)
+# (meta.json's optional caught_by names the check when it is not the property's own; patch applied to /repo, check run, patch reverted; evidence files are restored afterwards)
 cd /verif
 fail=0
 for d in seeded/*/; do
   id=$(basename $d)
-  prop=$(python3 -c "import json;print(json.load(open('$d/meta.json'))['breaks_property'])" 2>/dev/null) || continue
+  prop=$(python3 -c "import json;m=json.load(open('$d/meta.json'));print(m.get('caught_by',[m['breaks_property']])[0])" 2>/dev/null) || continue
   cd /repo && git diff --quiet || { echo "/repo dirty"; exit 2; }
-  git apply /verif/$d/patch.diff 2>/dev/null || git apply -3 /verif/$d/patch.diff 2>/dev/null || { echo "$id: patch no longer applies"; git checkout -- .; cd /verif; continue; }
+  git apply /verif/$d/patch.diff 2>/dev/null || git apply -3 /verif/$d/patch.diff 2>/dev/null || { echo "$id: patch no longer applies"; git reset -q --hard HEAD; fail=1; cd /verif; continue; }
   cp /verif/evidence/$prop.json /tmp/ev_$prop.json 2>/dev/null
   cd /verif && out=$(./check $prop quick 2>&1); code=$?
   cp /tmp/ev_$prop.json /verif/evidence/$prop.json 2>/dev/null
